@@ -1,9 +1,9 @@
 #!/bin/sh
-# tools/sweep.sh <tier> <seed>... : run every check once per seed, print the summary lines and anything alarming
+# tools/sweep.sh <tier> <seed>... : run every check (or those named in $CHECKS) once per seed, print the summary lines and anything alarming
 tier=$1; shift
 cd "$(dirname "$0")/.."
 for s in "$@"; do
-  for c in C01 C02 C03 C04 C05 C06 C07 C08 C09 C10 C11 C12 C13 C14 C15 C16 C17 C18 C19 C20; do
+  for c in ${CHECKS:-C01 C02 C03 C04 C05 C06 C07 C08 C09 C10 C11 C12 C13 C14 C15 C16 C17 C18 C19 C20}; do
     out=$(VERIF_SEED=$s ./check $c --tier $tier 2>&1); rc=$?
     echo "$out" | grep -E "^(VIOLATION|INCONCLUSIVE|STALE)" | cut -c1-300
     echo "rc=$rc $(echo "$out" | tail -1 | cut -c1-160)"
